@@ -28,9 +28,14 @@ def pick_assignments(prog, quick):
 def scenarios(tier):
     quick = tier == 'quick'
     jobs = []
+    QUICK_SKIP = ('jone_on-error', 'jone_on-complete', 'j2_on-error',
+                  'j2_on-complete', 'j2_mixed', 'j2_guards', 'jone_handler',
+                  'j2_handler', 'diamond_complete', 'join_then')
     for name, prog in wfgen.join_shapes().items():
+        if quick and name.startswith(QUICK_SKIP):
+            continue
         n = wfgen.program_size(prog)
-        for res in pick_assignments(prog, quick):
+        for ai, res in enumerate(pick_assignments(prog, quick)):
             tag = ''.join(res[k][0] for k in sorted(res))
             for sched in (('legacy',) if quick else ('legacy', 'default')):
                 scn = wfscn.ProgScenario(
@@ -38,26 +43,29 @@ def scenarios(tier):
                     check_prereq=True, scheduler=sched)
                 bound = None if (n <= 3 or not quick) else (
                     2 if n == 4 else 1)
-                jobs.append((scn, bound, 40 if quick else 1200, 1, 'join'))
+                jobs.append((scn, bound, 40 if quick else 1200, 1, 'join',
+                             ai))
     for name, (prog, target) in wfgen.reverse_shapes(
             3 if quick else 4).items():
         n = wfgen.program_size(prog)
         assigns = wfgen.result_assignments(prog)
         if quick:
             assigns = pick_assignments(prog, True)[:4]
-        for res in assigns:
+        for ai, res in enumerate(assigns):
             tag = ''.join(res[k][0] for k in sorted(res))
             scn = wfscn.ProgScenario(
                 '%s/%s' % (name, tag), prog, results=res, check_prereq=True,
                 params={'task_name': target})
             jobs.append((scn, None if n <= 3 else 3, 40 if quick else 600,
-                         1, 'reverse'))
+                         1, 'reverse', ai))
+    # every program first with its first assignment, then the second, ...
+    jobs.sort(key=lambda j: j[5])
     return jobs
 
 
 def main(tier):
     rep = common.Report(PROP, tier)
-    jobs = common.rotate(scenarios(tier))
+    jobs = scenarios(tier)
     deadline = time.time() + (150 if tier == 'quick' else 3000)
     res = common.parallel_map(common.explore_job,
                               [j[:4] for j in jobs], deadline=deadline)
